@@ -251,6 +251,7 @@ func driveLimits(s *exec.State, g *gen.G, n int) {
 				d["ticks"] = g.Pick(-100000, -32769, -32768, 32767, 32768, 100000)
 			}
 			d["rem"] = 0
+			d["big"] = g.Pick(0, 0, 0, 1, -1, 2, 1000)
 		}
 		s.Reset()
 		s.Build(1, v)
@@ -407,6 +408,98 @@ func init() {
 				c[2], c[3] = byte(l>>8), byte(l)
 				scriptDec(s, c)
 			}
+		}
+	}
+}
+
+// frame wraps a body in a common header with the length field matching the size (body is padded to 32 bits).
+func frame(pt, count int, body []byte) []byte {
+	for len(body)%4 != 0 {
+		body = append(body, 0)
+	}
+	n := (len(body)+4)/4 - 1
+	return append([]byte{byte(0x80 | count&31), byte(pt), byte(n >> 8), byte(n)}, body...)
+}
+
+func rep(pat []byte, n int) []byte {
+	out := make([]byte, 0, len(pat)*n)
+	for i := 0; i < n; i++ {
+		out = append(out, pat...)
+	}
+	return out
+}
+
+// amplifiers: small, correctly framed packets whose count, length and run fields claim as much as
+// they can (the shapes an attacker uses to make a decoder allocate or loop): C01, C13, C14.
+func amplifiers() [][]byte {
+	var out [][]byte
+	hdr := []byte{1, 2, 3, 4, 5, 6, 7, 8}
+	// TWCC: large status counts with many run-length chunks of every symbol, and all-ones vector chunks
+	for _, count := range []int{65535, 57345, 40000, 8191, 1000} {
+		for _, chunk := range [][]byte{{0x3F, 0xFF}, {0x5F, 0xFF}, {0x1F, 0xFF}, {0x7F, 0xFF}, {0x3F, 0xFE}, {0x20, 0x01}, {0xFF, 0xFF}, {0xBF, 0xFF}, {0x00, 0x00}} {
+			for _, n := range []int{1, 8, 9, 20, 100, 600} {
+				body := append(append([]byte(nil), hdr...), 0, 1, byte(count>>8), byte(count), 9, 9, 9, 1)
+				body = append(body, rep(chunk, n)...)
+				out = append(out, frame(205, 15, body))
+			}
+		}
+	}
+	// SDES: many empty items / many minimal chunks
+	for _, n := range []int{16, 100, 700} {
+		out = append(out, frame(202, 1, append([]byte{1, 2, 3, 4}, append(rep([]byte{1, 0}, n), 0)...)))
+		out = append(out, frame(202, 31, rep([]byte{1, 2, 3, 4, 0, 0, 0, 0}, n/8+1)))
+	}
+	// XR: many header-only blocks of unknown and known types, blocks claiming the maximum length
+	for _, bt := range []byte{0, 1, 3, 5, 9, 255} {
+		for _, n := range []int{4, 64, 370} {
+			out = append(out, frame(207, 0, append([]byte{1, 2, 3, 4}, rep([]byte{bt, 0, 0, 0}, n)...)))
+		}
+		out = append(out, frame(207, 0, append([]byte{1, 2, 3, 4, bt, 0, 0xFF, 0xFF}, rep([]byte{0xAA}, 40)...)))
+	}
+	// CCFB: num_reports claiming the maximum, many empty blocks
+	for _, nr := range [][]byte{{0xFF, 0xFF}, {0x40, 0x00}, {0x3F, 0xFF}, {0, 0}} {
+		out = append(out, frame(205, 11, append(append([]byte{1, 2, 3, 4, 5, 6, 7, 8, 0, 1}, nr...), rep([]byte{0x80, 1}, 20)...)))
+	}
+	out = append(out, frame(205, 11, append([]byte{1, 2, 3, 4}, append(rep([]byte{5, 6, 7, 8, 0, 1, 0, 0}, 150), 9, 9, 9, 9)...)))
+	// REMB: more than 255 entries with the count octet equal to the number of entries modulo 256, and other mismatches
+	for _, n := range []int{0, 1, 255, 256, 257, 300, 511, 512} {
+		for _, c := range []int{n % 256, (n + 1) % 256, 255} {
+			body := append([]byte{1, 2, 3, 4, 0, 0, 0, 0, 'R', 'E', 'M', 'B', byte(c), 0x18, 1, 2}, rep([]byte{9, 8, 7, 6}, n)...)
+			out = append(out, frame(206, 15, body))
+		}
+	}
+	// SR/RR/BYE with the maximal count and little content; long NACK/SLI/FIR lists
+	out = append(out, frame(200, 31, rep([]byte{7}, 24+24)), frame(201, 31, rep([]byte{7}, 4+24)), frame(203, 31, rep([]byte{7}, 8)))
+	for _, k := range [][2]int{{205, 1}, {205, 2}, {206, 4}} {
+		out = append(out, frame(k[0], k[1], rep([]byte{0xFF, 0xFE, 0xFD, 0xFC}, 360)))
+	}
+	return out
+}
+
+func init() {
+	drivers["amplify"] = func(s *exec.State, g *gen.G, n int) {
+		entry := map[byte]string{200: "SR", 201: "RR", 202: "SDES", 203: "BYE", 207: "XR"}
+		for _, b := range amplifiers() {
+			e, ok := entry[b[1]]
+			if !ok {
+				switch {
+				case b[1] == 205 && b[0]&31 == 15:
+					e = "TWCC"
+				case b[1] == 205 && b[0]&31 == 11:
+					e = "CCFB"
+				case b[1] == 205 && b[0]&31 == 1:
+					e = "NACK"
+				case b[1] == 205 && b[0]&31 == 2:
+					e = "SLI"
+				case b[1] == 206 && b[0]&31 == 15:
+					e = "REMB"
+				case b[1] == 206 && b[0]&31 == 4:
+					e = "FIR"
+				default:
+					e = "RAW"
+				}
+			}
+			scriptOwn(s, b, e)
 		}
 	}
 }
